@@ -194,6 +194,93 @@ func runC11(c *Ctx) {
 		}
 		c11Run(c, cs, r)
 	}
+	// re-entrant use: the Doer issues another request through the SAME client before it reads the body of the
+	// request it was handed (a token refresh, a retrying transport); each request must still go out as itself
+	for i := 0; i < c.N(120, 4000); i++ {
+		c11Reentrant(c, c.Rng("reentrant", i))
+	}
+}
+
+type nestDoer struct {
+	cl     graphql.Client
+	inner  *graphql.Request
+	depth  int
+	bodies map[string][]byte // by the marker the harness put into the context
+}
+
+func (d *nestDoer) Do(r *http.Request) (*http.Response, error) {
+	tag, _ := r.Context().Value(ctxKey{}).(int)
+	if d.depth == 0 && d.inner != nil {
+		d.depth++
+		var resp graphql.Response
+		d.cl.MakeRequest(context.WithValue(context.Background(), ctxKey{}, 1), d.inner, &resp)
+		d.depth--
+	}
+	var b []byte
+	if r.Method == "GET" {
+		b = []byte(r.URL.RawQuery)
+	} else if r.Body != nil {
+		b, _ = io.ReadAll(r.Body)
+	}
+	d.bodies[fmt.Sprint(tag)] = b
+	return &http.Response{StatusCode: 200, Body: io.NopCloser(strings.NewReader(`{"data":null}`))}, nil
+}
+
+func c11Reentrant(c *Ctx, r *proto.Rng) {
+	c.Res.Eval()
+	method := proto.Pick(r, []string{"POST", "POST", "GET"})
+	mk := func(tag string, n int) *graphql.Request {
+		return &graphql.Request{Query: "query " + tag + " { f(a: \"" + strings.Repeat("x", n) + "\") }", OpName: tag, Variables: map[string]any{"id": tag + strings.Repeat("y", n)}}
+	}
+	n := r.Intn(6)
+	outer := mk("Outer", n)
+	innerLen := n
+	switch r.Intn(3) {
+	case 0:
+		innerLen = n + 1 + r.Intn(5)
+	case 1:
+		if n > 0 {
+			innerLen = r.Intn(n)
+		}
+	}
+	inner := mk("Inner", innerLen) // "Inner"/"Outer": same length, so innerLen == n gives byte strings of equal length
+	d := &nestDoer{inner: inner, bodies: map[string][]byte{}}
+	if method == "GET" {
+		d.cl = graphql.NewClientUsingGet("http://example.com/graphql", d)
+	} else {
+		d.cl = graphql.NewClient("http://example.com/graphql", d)
+	}
+	var resp graphql.Response
+	err := d.cl.MakeRequest(context.WithValue(context.Background(), ctxKey{}, 0), outer, &resp)
+	c.Res.Count("reentrant:" + method)
+	c.Res.NonTrivial(fmt.Sprintf("reentrant|%s|%d|%d", method, n, innerLen))
+	check := func(tag string, want *graphql.Request) {
+		b := d.bodies[tag]
+		var gq, gn, gv string
+		if method == "POST" {
+			var m map[string]json.RawMessage
+			if json.Unmarshal(b, &m) != nil {
+				c.Res.Add(proto.Finding{Kind: "violation", Class: "reentrant-body-not-json", What: fmt.Sprintf("request %s went out with a body that is not JSON when another request was built before its body was read: %q", tag, trunc(string(b), 200)), Case: map[string]any{"method": method, "outer": outer, "inner": inner}})
+				return
+			}
+			json.Unmarshal(m["query"], &gq)
+			json.Unmarshal(m["operationName"], &gn)
+			gv = string(m["variables"])
+		} else {
+			vals, _ := url.ParseQuery(string(b))
+			gq, gn, gv = vals.Get("query"), vals.Get("operationName"), vals.Get("variables")
+		}
+		wv, _ := json.Marshal(want.Variables)
+		if gq != want.Query || gn != want.OpName || gv != string(wv) {
+			c.Res.Add(proto.Finding{Kind: "violation", Class: "reentrant-request-differs", What: fmt.Sprintf("request %s (%s) was transmitted as query=%q operationName=%q variables=%s when another request was built before its body was read", tag, want.OpName, gq, gn, gv), Case: map[string]any{"method": method, "outer": outer, "inner": inner}})
+		}
+	}
+	if err != nil {
+		c.Res.Add(proto.Finding{Kind: "violation", Class: "legit-request-not-sent", What: "re-entrant request failed: " + err.Error(), Case: map[string]any{"method": method}})
+		return
+	}
+	check("0", outer)
+	check("1", inner)
 }
 
 func readFile(p string) ([]byte, error) { return osReadFile(p) }
